@@ -110,3 +110,12 @@ reg("C16", "other",
     "c(x1y0 - x0y1) + telescoping with c > 0 and negative => inner; Multipatch::with_parts closes exactly the four ring kinds. "
     "Not decided: floating-point rounding of the area (the property restricts orientation to exactly representable "
     "coordinates); macro forms are checked in the thorough tier through the witness crate.")
+reg("C20", "other",
+    "dispatch tables (E1), slot binding of coordinates, blacklist who-may-call rule, loop-body tables for hole grouping, "
+    "four-point f64 ordering domain for dim/nth (E6) — all in the geo-types,geo-traits configuration",
+    "Structural clauses for every variant and impl: Shape<->Geometry dispatch tables with their refusals (Err, never a panic), "
+    "Multipatch strips/fans refused, x->x / y->y binding with z = 0 and m = NO_DATA defaults for all 12 point/coord conversions, "
+    "no reordering or dropping adaptor in any collection conversion, hole-grouping tables (outer flushes and opens, inner joins "
+    "the pending polygon) for polygons and multipatches, and for the six CoordTrait impls over the four orderings of m against "
+    "NO_DATA: dim() = n implies nth_or_panic(i) returns field i without panicking for i < n. The NaN case of PointZ violated the "
+    "last clause and was repaired in /repo (ecfa6df). Not decided: round-trip equality of coordinate values.")
